@@ -238,7 +238,7 @@ def manyReq (env : Env) (c : Call) (parts : List (String × MSpec)) (d : Option 
     match resolve env c m with
     | .error e => .error e
     | .ok r => (mkReq (instOf c r prm) (.many parts) (if env.fwdJoint then d else none)).map (fun q => [q])
-  | none => (mapParts (fun ms => oneReq env c ms d) parts).map (fun rs => rs.map (·.2))
+  | none => (mapParts (fun ms => oneReq env c ms (perSpecDrop c d)) parts).map (fun rs => twice c.dropGrows (rs.map (·.2)))
 
 theorem mapParts_congr {α β : Type} (f g : α → Except Err β) : ∀ (parts : List (String × α)),
     (∀ p ∈ parts, f p.2 = g p.2) → mapParts f parts = mapParts g parts
@@ -252,7 +252,7 @@ theorem modelSpecsGMM0_eq {env : Env} {c : Call} {parts : List (String × MSpec)
   cases jointLoop none none (parts.map (·.2)) with
   | none =>
     simp only
-    rw [mapParts_congr _ (fun ms => oneReq env c ms d) parts (fun p hp => modelSpecGMM_nil (h p hp) d)]
+    rw [mapParts_congr _ (fun ms => oneReq env c ms (perSpecDrop c d)) parts (fun p hp => modelSpecGMM_nil (h p hp) _)]
   | some mp =>
     obtain ⟨m, prm⟩ := mp
     simp only
@@ -334,13 +334,19 @@ theorem map_map_single (x : Except Err Request) :
     ((x.map (fun r => [r])).map eraseAll) = (x.map eraseDrop).map (fun r => [r]) := by
   cases x <;> rfl
 
-theorem mapParts_erase (env : Env) (c : Call) (d d' : Option Nat) : ∀ (parts : List (String × MSpec)),
+theorem mem_twice {α : Type} {b : Bool} {l : List α} {x : α} : x ∈ twice b l ↔ x ∈ l := by
+  cases b <;> simp [twice]
+
+theorem eraseAll_twice (b : Bool) (l : List Request) : eraseAll (twice b l) = twice b (eraseAll l) := by
+  cases b <;> simp [twice, eraseAll]
+
+theorem mapParts_erase1 (env : Env) (c : Call) (d d' : Option Nat) : ∀ (parts : List (String × MSpec)),
     ((mapParts (fun ms => oneReq env c ms d) parts).map (fun rs => rs.map (·.2))).map eraseAll
       = ((mapParts (fun ms => oneReq env c ms d') parts).map (fun rs => rs.map (·.2))).map eraseAll
   | [] => rfl
   | (k, ms) :: r => by
     have h1 := oneReq_erase env c ms d d'
-    have h2 := mapParts_erase env c d d' r
+    have h2 := mapParts_erase1 env c d d' r
     simp only [mapParts]
     cases e1 : oneReq env c ms d with
     | error e =>
@@ -362,13 +368,30 @@ theorem mapParts_erase (env : Env) (c : Call) (d d' : Option Nat) : ∀ (parts :
           | error e' => simp [f1, f2, Except.map] at h2
           | ok t' =>
             simp only [f1, f2, Except.map, Except.ok.injEq, eraseAll] at h2
-            simp only [Except.map, Except.ok.injEq, eraseAll, List.map_cons, h1, h2]
+            simp only [Except.map, eraseAll, List.map_cons, h1, h2]
+
+/-- one pass or two: erasing `drop_rows` makes the set object irrelevant -/
+theorem mapParts_erase (env : Env) (c : Call) (b : Bool) (d d' : Option Nat) (parts : List (String × MSpec)) :
+    ((mapParts (fun ms => oneReq env c ms d) parts).map (fun rs => twice b (rs.map (·.2)))).map eraseAll
+      = ((mapParts (fun ms => oneReq env c ms d') parts).map (fun rs => twice b (rs.map (·.2)))).map eraseAll := by
+  have h := mapParts_erase1 env c d d' parts
+  cases e1 : mapParts (fun ms => oneReq env c ms d) parts with
+  | error e =>
+    cases e2 : mapParts (fun ms => oneReq env c ms d') parts with
+    | error e' => simp only [e1, e2, Except.map, Except.error.injEq] at h ⊢; exact h
+    | ok t' => simp [e1, e2, Except.map] at h
+  | ok t =>
+    cases e2 : mapParts (fun ms => oneReq env c ms d') parts with
+    | error e' => simp [e1, e2, Except.map] at h
+    | ok t' =>
+      simp only [e1, e2, Except.map, Except.ok.injEq] at h ⊢
+      rw [eraseAll_twice, eraseAll_twice, h]
 
 theorem manyReq_erase (env : Env) (c : Call) (parts : List (String × MSpec)) (d d' : Option Nat) :
     (manyReq env c parts d).map eraseAll = (manyReq env c parts d').map eraseAll := by
   simp only [manyReq]
   cases jointLoop none none (parts.map (·.2)) with
-  | none => exact mapParts_erase env c d d' parts
+  | none => exact mapParts_erase env c c.dropGrows _ _ parts
   | some mp =>
     obtain ⟨m, prm⟩ := mp
     simp only
@@ -520,13 +543,16 @@ theorem oneReq_plumbed {env : Env} {c : Call} {ms : MSpec} {d : Option Nat} {q :
   | ok r => simp only [hr] at h; exact (mkReq_plumbed h).1
 
 /-- which `drop_rows` the requests of a prepared spec carry when `d` was handed to its `get_model_matrix` -/
-def dropAfter (env : Env) (p : Prepared) (d : Option Nat) : Option Nat :=
+def dropAfter (env : Env) (c : Call) (p : Prepared) (d : Option Nat) : Option Nat :=
   match p with
   | .one _ => d
-  | .many parts => if (jointLoop none none (parts.map (·.2))).isSome && !env.fwdJoint then none else d
+  | .many parts =>
+    match jointLoop none none (parts.map (·.2)) with
+    | some _ => if env.fwdJoint then d else none      -- joint: one request with the caller's object (or `None`)
+    | none => perSpecDrop c d                         -- per spec: the caller's set, or ONE fresh set for all parts
 
 theorem afterPrepared_plumbed {env : Env} {c : Call} {p : Prepared} {d : Option Nat} {rs : List Request}
-    (h : afterPrepared env c p d = .ok rs) : ∀ q ∈ rs, Plumbed c (dropAfter env p d) q := by
+    (h : afterPrepared env c p d = .ok rs) : ∀ q ∈ rs, Plumbed c (dropAfter env c p d) q := by
   cases p with
   | one ms =>
     simp only [afterPrepared] at h
@@ -562,13 +588,13 @@ theorem afterPrepared_plumbed {env : Env} {c : Call} {p : Prepared} {d : Option 
           cases hfj : env.fwdJoint <;> simpa [hfj] using this
     | none =>
       simp only [hj] at h
-      cases hm : mapParts (fun ms => oneReq env c ms d) parts with
+      cases hm : mapParts (fun ms => oneReq env c ms (perSpecDrop c d)) parts with
       | error e => simp [hm, Except.map] at h
       | ok out =>
         simp only [hm, Except.map, Except.ok.injEq] at h
         subst h
         intro q hq
-        obtain ⟨kq, hkq, rfl⟩ := List.mem_map.mp hq
+        obtain ⟨kq, hkq, rfl⟩ := List.mem_map.mp (mem_twice.mp hq)
         obtain ⟨p0, _, hp0⟩ := mapParts_ok_mem _ parts out hm kq hkq
         simpa using oneReq_plumbed hp0
 
